@@ -64,6 +64,8 @@ def check_metrics(inp):
   pr = jnp.asarray(sc)
   lm = np.zeros(n, np.float32)
   lm[0] = -np.inf if inp.get('mask_class0') else 0.0
+  if inp.get('logits_mask') is not None:
+    lm = np.asarray(inp['logits_mask'], np.float32)
 
   def mean(num, den):
     return float(num / den) if den > 0 else 0.0
@@ -162,6 +164,10 @@ def sweep_metrics(tier, seed):
         yield dict(seed=seed + s, classes=n, length=L)
   yield dict(seed=seed, classes=3, length=4, all_masked=True)
   yield dict(seed=seed, classes=3, length=4, mask_class0=True)
+  # logits masks are ADDED to the scores: finite and +inf entries count like -inf ones
+  for lmk in ([0.0, 2.5, -2.5], [0.0, float('inf'), 0.0], [-1.5, 0.0, float('-inf')], [3.0, 0.0, 0.0]):
+    yield dict(seed=seed + 1, classes=3, length=5, logits_mask=lmk)
+    yield dict(seed=seed + 2, classes=3, length=4, logits_mask=lmk)
   yield dict(seed=seed, classes=4, length=4, masked=[0, 1])
 
 
